@@ -6,10 +6,10 @@ import vlib
 from vlib import Undecided, read_ndjson
 
 
-def pool_cfg(ng, n, np_, sort="copy", variant="ok", uses="{1, 2}", invs=None):
+def pool_cfg(ng, n, np_, sort="copy", variant="ok", uses="{1, 2}", invs=None, k=2):
     invs = invs or "PcExclusive AttrsExclusive NoTear NoRace NoDup Multiset WriteBeforePut"
-    return ("SPECIFICATION Spec\nCONSTANTS NG = %d N = %d NP = %d K = 2 GroupSort = \"%s\" UsesGroup = %s Variant = \"%s\"\n"
-            "INVARIANTS %s\nCHECK_DEADLOCK FALSE\n" % (ng, n, np_, sort, uses, variant, invs))
+    return ("SPECIFICATION Spec\nCONSTANTS NG = %d N = %d NP = %d K = %d GroupSort = \"%s\" UsesGroup = %s Variant = \"%s\"\n"
+            "INVARIANTS %s\nCHECK_DEADLOCK FALSE\n" % (ng, n, np_, k, sort, uses, variant, invs))
 
 
 def validate(ctx, tp, name):
@@ -40,8 +40,9 @@ def run(ctx, replay):
     else:
         # 1. design level: every interleaving of the per-call steps
         ctx.model_check("Pool", "P1.cfg", files={"P1.cfg": pool_cfg(2, 2 if quick else 3, 3)}, name="pool-2x2")
-        ctx.model_check("Pool", "P2.cfg", files={"P2.cfg": pool_cfg(3, 1 if quick else 2, 4, uses="{1, 2, 3}")}, name="pool-3x1",
-                        timeout=2400)
+        # 3 goroutines x 2 calls with one chunk per record (142 M states with two chunks: too slow)
+        ctx.model_check("Pool", "P2.cfg", files={"P2.cfg": pool_cfg(3, 1 if quick else 2, 4 if quick else 3, uses="{1, 2, 3}",
+                                                                    k=2 if quick else 1)}, name="pool-3x1", timeout=2400)
         # 2. non-vacuity: each mechanism variant must violate its invariant
         for sort, variant, inv in (("inplace", "ok", "NoRace"), ("copy", "putBeforeWrite", "NoTear"), ("copy", "sharedBuffer", "NoTear")):
             w = ctx.tlc("Pool", "W.cfg", files={"W.cfg": pool_cfg(2, 1, 3, sort=sort, variant=variant, invs=inv)},
